@@ -172,6 +172,9 @@ class XKNX:
         # behind the queue's stop sentinel would never be marked done
         await self.knxip_interface.stop()
         await self.telegram_queue.stop()
+        # tasks started by the telegrams processed above
+        self.devices.async_remove_device_tasks()
+        self.task_registry.stop()
         self.started.clear()
 
     async def loop_until_sigint(self) -> None:
